@@ -203,6 +203,7 @@ def cfgOfJson (j : Json) : Cfg :=
     deleteCascadesOps := b "deleteCascadesOps" true, metadataAtomic := b "metadataAtomic" true,
     esRecycle := b "esRecycle" true, esFailureFinishesOp := b "esFailureFinishesOp" true,
     createKeepsInfeasible := b "createKeepsInfeasible" true,
-    esAnswerFinishesOp := b "esAnswerFinishesOp" true }
+    esAnswerFinishesOp := b "esAnswerFinishesOp" true,
+    resumesAbandonedOp := b "resumesAbandonedOp" true }
 
 end VizierModel.Driver.SvcJson
